@@ -70,14 +70,32 @@ pub fn run(tier: Tier, seed: u64) -> i32 {
     par_cases(n, threads(), |ci| {
         let mut rng = case_rng(seed, "C12", ci);
         let kind = ci % 7;
-        let (pname, p, q) = pair(&mut rng, ci / 7);
+        let (pname, mut p, mut q) = pair(&mut rng, ci / 7);
         let one = BlsScalar::one();
         let mut scalar = BlsScalar::zero();
+        // operand wiring: the two input points, or the composer's constant
+        // IDENTITY (point register 0) itself as the first / second operand,
+        // or a circuit constant (ZERO / ONE register) as the bit / scalar
+        let wiring = (ci / 49) % 6;
+        let (pa, pb, wname) = match wiring {
+            3 => {
+                p = JubJubExtended::identity();
+                (0usize, 2usize, "constant-identity-first")
+            }
+            4 => {
+                q = JubJubExtended::identity();
+                (1, 0, "constant-identity-second")
+            }
+            _ => (1, 2, if wiring == 5 { "constant-bit-or-scalar" } else { "input-points" }),
+        };
+        let const_bit: Option<(usize, BlsScalar)> = if wiring == 5 { Some(if (ci / 7) % 2 == 0 { (1, one) } else { (0, BlsScalar::zero()) }) } else { None };
+        ev.set_insert("wirings", wname);
+        ev.bucket(&format!("wiring.{wname}"));
         // point registers: 0 = IDENTITY, 1 = pt0, 2 = pt1; scalar registers: 2 = in0, result coords at 3, 4
         let case = match kind {
-            0 => Case { component: "component_add_point".into(), prog: prog(Op::AddPoint(1, 2), 3), inputs: Inputs::default(), op: 3, returned: vec![3, 4], relation: true, expected: coords(&(p + q)), note: pname.into() },
-            1 => Case { component: "component_sub_point".into(), prog: prog(Op::SubPoint(1, 2), 3), inputs: Inputs::default(), op: 3, returned: vec![3, 4], relation: true, expected: coords(&(p - q)), note: pname.into() },
-            2 => Case { component: "component_neg_point".into(), prog: prog(Op::NegPoint(1), 3), inputs: Inputs::default(), op: 3, returned: vec![3, 4], relation: true, expected: coords(&(-p)), note: pname.into() },
+            0 => Case { component: "component_add_point".into(), prog: prog(Op::AddPoint(pa, pb), 3), inputs: Inputs::default(), op: 3, returned: vec![3, 4], relation: true, expected: coords(&(p + q)), note: pname.into() },
+            1 => Case { component: "component_sub_point".into(), prog: prog(Op::SubPoint(pa, pb), 3), inputs: Inputs::default(), op: 3, returned: vec![3, 4], relation: true, expected: coords(&(p - q)), note: pname.into() },
+            2 => Case { component: "component_neg_point".into(), prog: prog(Op::NegPoint(pa), 3), inputs: Inputs::default(), op: 3, returned: vec![3, 4], relation: true, expected: coords(&(-p)), note: pname.into() },
             3 | 4 => {
                 let (bname, bit) = match (ci / 7) % 6 {
                     0 | 1 => ("bit=0", BlsScalar::zero()),
@@ -85,18 +103,22 @@ pub fn run(tier: Tier, seed: u64) -> i32 {
                     4 => ("bit=2", BlsScalar::from(2u64)),
                     _ => ("bit=-1", minus_one()),
                 };
+                let (breg, bname, bit) = match const_bit {
+                    Some((r, v)) => (r, if r == 1 { "bit=ONE-constant" } else { "bit=ZERO-constant" }, v),
+                    None => (2usize, bname, bit),
+                };
                 scalar = bit;
                 let boolean = bit == one || bit == BlsScalar::zero();
                 if kind == 3 {
                     let exp = if bit == one { p } else { JubJubExtended::identity() };
                     // select_identity emits component_boolean + two selection rows: result preg 3
-                    Case { component: "component_select_identity".into(), prog: prog(Op::SelectIdentity(2, 1), 3), inputs: Inputs::default(), op: 3, returned: vec![3, 4], relation: boolean, expected: coords(&exp), note: format!("{pname},{bname}") }
+                    Case { component: "component_select_identity".into(), prog: prog(Op::SelectIdentity(breg, pa), 3), inputs: Inputs::default(), op: 3, returned: vec![3, 4], relation: boolean, expected: coords(&exp), note: format!("{pname},{bname}") }
                 } else {
                     // select_point does not constrain the bit: the documented value is the mux formula
                     let (pu, pv) = rj::affine(&p);
                     let (qu, qv) = rj::affine(&q);
                     let exp = vec![bit * pu + (one - bit) * qu, bit * pv + (one - bit) * qv];
-                    Case { component: "component_select_point".into(), prog: prog(Op::SelectPoint(2, 1, 2), 3), inputs: Inputs::default(), op: 3, returned: vec![3, 4], relation: true, expected: exp, note: format!("{pname},{bname}") }
+                    Case { component: "component_select_point".into(), prog: prog(Op::SelectPoint(breg, pa, pb), 3), inputs: Inputs::default(), op: 3, returned: vec![3, 4], relation: true, expected: exp, note: format!("{pname},{bname}") }
                 }
             }
             _ => {
@@ -121,12 +143,16 @@ pub fn run(tier: Tier, seed: u64) -> i32 {
                     9 => ("hostile", hostile_scalar(&mut rng)),
                     _ => ("random<2^252", U320::from_scalar(&rand_scalar(&mut rng)).low_bits(252).to_scalar()),
                 };
+                let (sreg, sname, s) = match const_bit {
+                    Some((r, v)) => (r, if r == 1 { "ONE-constant" } else { "ZERO-constant" }, v),
+                    None => (2usize, sname, s),
+                };
                 scalar = s;
                 let fits = U320::from_scalar(&s).lt(&U320::pow2(252));
                 let exp = rj::mul_scalar(&p, &s);
                 // result point register: decomposition pushes no points; rounds push 3 points each... the
                 // returned point is the last one pushed: resolve after the build (see below)
-                Case { component: "component_mul_point".into(), prog: prog(Op::MulPoint(2, 1), 3), inputs: Inputs::default(), op: 3, returned: vec![3, 4], relation: fits, expected: coords(&exp), note: format!("{pname},s={sname}") }
+                Case { component: "component_mul_point".into(), prog: prog(Op::MulPoint(sreg, pa), 3), inputs: Inputs::default(), op: 3, returned: vec![3, 4], relation: fits, expected: coords(&exp), note: format!("{pname},s={sname}") }
             }
         };
         let mut case = case;
@@ -221,6 +247,10 @@ pub fn run(tier: Tier, seed: u64) -> i32 {
         }
     });
     ev.floor("components", ev.set_len("components") as u64, 6);
+    ev.floor("operand wirings (input points, constant IDENTITY first / second, constant bit or scalar)", ev.set_len("wirings") as u64, 4);
+    for w in ["constant-identity-first", "constant-identity-second", "constant-bit-or-scalar"] {
+        ev.floor(&format!("cases with wiring {w}"), ev.bucket_get(&format!("wiring.{w}")), tier.pick(100, 1000));
+    }
     for c in ["identity+identity", "identity+P", "P+identity", "P+(-P)", "P+P", "P+Q", "small-multiples"] {
         ev.floor(&format!("pair class {c}"), ev.bucket_get(&format!("class.{c}")), 5);
     }
